@@ -352,6 +352,10 @@ def run(R):
                     for o in x[2]:
                         if constdef(o):
                             removed.add(constdef(o).split('::')[-1])
+                # .. or over a named constant table of them
+                for e_ in (const_table(tonic, key) or []):
+                    if constdef(e_):
+                        removed.add(constdef(e_).split('::')[-1])
         R.eq(sorted(removed), sorted(w), 'C04.R4', 'reader-removes', site(fh), 'names removed from the metadata clone')
         # metadata field built from that clone
         aggs = mirlib.aggregates(fh, 'status::Status')
@@ -381,7 +385,7 @@ def run(R):
         # grpc-status inserted unconditionally: dominates every Ok return
         st = [bb for bb, t in ins if (constdef(ah.origin(t['args'][1])) or '').endswith('GRPC_STATUS')]
         if st:
-            oks = [bb for bb, i, p, a, ops in mirlib.aggregates(ah, 'result::Result', 'Ok') if p['l'] == 0]
+            oks = [bb for bb, i, p, a, ops in mirlib.aggregates(ah, 'result::Result', 'Ok') if flows_to_return(ah, p['l'])]
             for okb in oks:
                 R.check(ah.dominates(st[0], okb), 'C04.R4', 'writer-status-unconditional', site(ah, okb), 'insert(GRPC_STATUS) dominates the Ok return')
             R.floor('C04.R4', 'Ok returns of add_header', len(oks), 1)
